@@ -59,6 +59,8 @@ def parseDecimalL (cs : List Char) : Except Err Int :=
   match splitAtChar '.' cs with
   | none => .error .extDecimal
   | some (ip, fp) =>
+    -- `s[0] == '+'`: the sign `strconv.ParseInt` would accept is not Cedar syntax
+    if cs.head? == some '+' then .error .extDecimal else
     match parseInt64 ip with
     | none => .error .extDecimal
     | some i =>
@@ -110,7 +112,8 @@ def printDecimal (d : Int) : String := String.ofList (printDecimalL d)
 def wrap16 (x : Int) : Int := (x + 32768) % 65536 - 32768
 
 /-- `types.NewDecimal(i, exponent)`, literally: `int64(math.Pow10(k))` is exact for `k ≤ 18`;
-    for a positive exponent the product wraps and the overflow test is Go's (unsound) `intPart < i`. -/
+    for a positive exponent the operand is compared with `MaxInt64/pow` and `MinInt64/pow` (Go `/` truncates)
+    before the product is formed, so the product never wraps (`newDecimalExp_pos` in the C12 lemmas). -/
 def newDecimalExp (i : Int) (exponent : Int) : Except Err Int :=
   if exponent < -4 || exponent > 14 then .error .extDecimal else
   if exponent ≤ 0 then
@@ -119,10 +122,10 @@ def newDecimalExp (i : Int) (exponent : Int) : Except Err Int :=
     let fracPart := wrap (Int.tmod i p * 10 ^ (4 + exponent).toNat)
     newDecimal intPart (wrap16 fracPart)
   else
-    let intPart := wrap (i * 10 ^ exponent.toNat)
-    if i > 0 && intPart < i then .error .extDecimal
-    else if i < 0 && intPart > i then .error .extDecimal
-    else newDecimal intPart (wrap16 0)
+    let pow : Int := 10 ^ exponent.toNat
+    if i > Int.tdiv maxI64 pow then .error .extDecimal
+    else if i < Int.tdiv minI64 pow then .error .extDecimal
+    else newDecimal (wrap (i * pow)) (wrap16 0)
 
 /-! ## Long (`fmt.Sprint(int64)` / `strconv.ParseInt`) -/
 
@@ -138,38 +141,42 @@ def unitIndex : List Char → Nat
 def unitMillis : Nat → Int
   | 0 => 86400000 | 1 => 3600000 | 2 => 60000 | 3 => 1000 | _ => 1
 
-/-- the main loop of `types.ParseDuration`; `unitI` = next admissible index in `unitOrder` -/
-def durLoop : List Char → (unitI : Nat) → (total value : Int) → (hasValue : Bool) → Except Err Int
+/-- the main loop of `types.ParseDuration`; `unitI` = next admissible index in `unitOrder`; `limit` = the largest
+    admissible magnitude (2^63 after a leading `-`, 2^63-1 otherwise).  Go accumulates `total`/`value` in `uint64`;
+    the guards keep every intermediate result ≤ `limit` (`durLoop_ok_range` in the C12 lemmas), so exact
+    arithmetic on `Int` is what the unsigned arithmetic computes. -/
+def durLoop (limit : Int) : List Char → (unitI : Nat) → (total value : Int) → (hasValue : Bool) → Except Err Int
   | [], _, total, _, hasValue => if hasValue then .error .extDuration else .ok total
   | c :: rest, unitI, total, value, hasValue =>
     if unitI ≥ 5 then
       (if hasValue then .error .extDuration else .error .extDuration)  -- i < len(s): invalid duration
     else if isDig c then
       let digit : Int := digVal c
-      if value > (maxI64 - digit) / 10 then .error .extDuration
-      else durLoop rest unitI total (value * 10 + digit) true
+      if value > (limit - digit) / 10 then .error .extDuration
+      else durLoop limit rest unitI total (value * 10 + digit) true
     else if c == 'd' || c == 'h' || c == 'm' || c == 's' then
       if !hasValue then .error .extDuration else
       let isMs := c == 'm' && rest.head? == some 's'
       let idx := if isMs then 4 else unitIndex [c]
       if idx < unitI then .error .extDuration else
       let millis := unitMillis idx
-      if value > maxI64 / millis then .error .extDuration else
+      if value > limit / millis then .error .extDuration else
       let product := value * millis
-      if total > maxI64 - product then .error .extDuration else
+      if total > limit - product then .error .extDuration else
       if isMs then
         match rest with
-        | _ :: rest' => durLoop rest' (idx + 1) (total + product) 0 false
+        | _ :: rest' => durLoop limit rest' (idx + 1) (total + product) 0 false
         | [] => .error .extDuration
-      else durLoop rest (idx + 1) (total + product) 0 false
+      else durLoop limit rest (idx + 1) (total + product) 0 false
     else .error .extDuration
 
 /-- `types.ParseDuration` -/
 def parseDurationL (cs : List Char) : Except Err Int :=
   -- Go: len(s) <= 1 in bytes; a one-character non-ASCII string passes that test and is rejected later
   if cs.length ≤ 1 then .error .extDuration else
-  if cs.head? == some '-' then (durLoop cs.tail 0 0 0 false).map (fun t => -t)
-  else durLoop cs 0 0 0 false
+  -- `int64(-total)` (negation in uint64) is exactly `-total` for `total ≤ 2^63`, which the guards ensure
+  if cs.head? == some '-' then (durLoop (maxI64 + 1) cs.tail 0 0 0 false).map (fun t => -t)
+  else durLoop maxI64 cs 0 0 0 false
 
 def parseDuration (s : String) : Except Err Int := parseDurationL s.toList
 
@@ -179,10 +186,11 @@ def unitChars : Nat → List Char
 /-- one `if q > 0 { FormatInt(q); unit }` block of `Duration.String` -/
 def durPart (q : Int) (idx : Nat) : List Char := if q > 0 then natDigits q.toNat ++ unitChars idx else []
 
-/-- `Duration.String` (Go negates with wrap-around, so MinInt64 prints as "-") -/
+/-- `Duration.String` (the magnitude is kept in a `uint64`, where negating `uint64(d)` gives exactly `-d`
+    for every negative `int64`, MinInt64 included) -/
 def printDurationL (d : Int) : List Char :=
   if d == 0 then ['0', 'm', 's'] else
-  let rem0 : Int := if d < 0 then wrap (-d) else d
+  let rem0 : Int := if d < 0 then -d else d
   let sign : List Char := if d < 0 then ['-'] else []
   let days := Int.tdiv rem0 86400000
   let r1 := Int.tmod rem0 86400000
@@ -243,7 +251,8 @@ def expectCh (c : Char) : List Char → Option (List Char)
 
 /-- `minDatetime = time.Date(-292275055, 5, 17, 16, 47, 04, 192ms)` as written in types/datetime.go.
     (The true instant of MinInt64 ms is one day earlier, 05-16: the first day of the range prints
-    but does not parse — C12 finding.) -/
+    but does not parse — C12 finding, NOT repaired: types/datetime_test.go asserts that
+    `-292275055-05-17T16:47:04.191Z` is out of range.) -/
 def minDatetimeMs : Int := daysFromCivil (-292275055) 5 17 * 86400000 + 16 * 3600000 + 47 * 60000 + 4 * 1000 + 192
 /-- `maxDatetime = time.Date(292278994, 8, 17, 7, 12, 55, 807ms)` -/
 def maxDatetimeMs : Int := daysFromCivil 292278994 8 17 * 86400000 + 7 * 3600000 + 12 * 60000 + 55 * 1000 + 807
@@ -330,7 +339,8 @@ def parseDatetimeL (cs : List Char) : Except Err Int :=
   | none => E
   | some (year, month, day, s) =>
   let dayMs : Int := daysFromCivil year month day * 86400000
-  if s.isEmpty then .ok (wrap dayMs)      -- date-only path: no range check in Go, UnixMilli wraps
+  -- date-only path: `t.Before(time.UnixMilli(MinInt64)) || t.After(time.UnixMilli(MaxInt64))`, the exact range
+  if s.isEmpty then (if dayMs < minI64 || dayMs > maxI64 then E else .ok dayMs)
   else
   match expectCh 'T' s with
   | none => E
@@ -429,7 +439,7 @@ def v6Loop : Nat → List Char → List Nat → Option Nat → Option (List Nat 
 def groupsToNat (gs : List Nat) : Nat := gs.foldl (fun a g => a * 65536 + g) 0
 
 def parseV6 (cs : List Char) : Option Nat :=
-  if cs.contains '%' then none else   -- zones: not modelled (cedar-go accepts them: known finding)
+  if cs.contains '%' then none else   -- zones: `ParseIPAddr` rejects every address with a zone (`addr.Zone() == ""`)
   let r : Option (List Nat × Option Nat) :=
     match cs with
     | ':' :: ':' :: rest => if rest.isEmpty then some ([], some 0) else v6Loop 9 rest [] (some 0)
@@ -447,7 +457,7 @@ def parseV6 (cs : List Char) : Option Nat :=
       (match ell with | some _ => none | none => some (groupsToNat groups))
     else none
 
-/-- `netip.ParseAddr` (zone-free part) -/
+/-- `netip.ParseAddr` restricted to zone-free results (all that `types.ParseIPAddr` lets through) -/
 def parseAddr (cs : List Char) : Option (Bool × Nat) :=
   match cs.find? (fun c => c == '.' || c == ':' || c == '%') with
   | some '.' => (parseV4 cs).map (fun a => (false, a))
